@@ -2,13 +2,14 @@ import os
 from lib.core import Kani, Verus, Fn, VERUS_DIR
 from lib import vx
 from verus import c09_head_set as hs
+from verus import c09_transaction_tips as tt
 
 PROPERTY = 'C09'
 LEVEL = 'proof'
 F = 'crates/aranya-runtime/src/storage/head_set.rs'
 T = 'crates/aranya-runtime/src/client/transaction.rs'
 TI = r'impl<SP: StorageProvider, PS: PolicyStore> Transaction<SP, PS>'
-HARNESS_FILES = ['verus/c09_head_set.py', 'kani/aranya-runtime/head_set.rs', 'kani/aranya-runtime/transaction.rs', 'kani/aranya-runtime/mocks.rs']
+HARNESS_FILES = ['verus/c09_head_set.py', 'verus/c09_transaction_tips.py', 'kani/aranya-runtime/head_set.rs', 'kani/aranya-runtime/transaction.rs', 'kani/aranya-runtime/mocks.rs']
 RT = dict(crate='aranya-runtime', features='testing,libc')
 MH = 'storage::head_set::verif_kani::'
 MT = 'client::transaction::verif_kani::'
@@ -22,7 +23,21 @@ def build():
     return text, located, dropped
 
 
+def build_tt():
+    text, located, dropped, raws = tt.build()
+    d = os.path.join(VERUS_DIR, 'c09_transaction_tips')
+    os.makedirs(d, exist_ok=True)
+    vx.write_diff(raws, os.path.join(d, 'repo_vs_verified.diff'))
+    return text, located, dropped
+
+
+TT_UNIT = Verus('c09_transaction_tips', build_tt, min_verified=8,
+                contract='Transaction::{flush, get_perspective, add_single} extracted verbatim (no body rewrites), transactions of any size, tips = keys(heads) + in-flight tip: '
+                         'flush keeps the tip set and leaves nothing in flight; get_perspective(parent) makes parent the in-flight tip (tips + {parent}), re-using the current perspective or writing it out first; '
+                         'add_single accepted => tips\' = (tips - {parent}) + {command} (the frontier step); rejected by the policy => tips unchanged and the transaction stays committable '
+                         '(never an empty perspective in flight, which storage.write refuses); invariant: a perspective is in flight iff phead is set, it is non-empty, phead = its last command and is not among the written tips')
 UNITS = [
+    TT_UNIT,
     Verus('c09_head_set', build, min_verified=7,
           contract='HeadSet::push: requires sorted+duplicate-free; ensures sorted+duplicate-free, contains head, every other membership unchanged, '
                    'length grows by 0 or 1; single establishes the invariant; lemma: two sorted duplicate-free sequences with equal element sets are equal '
@@ -39,12 +54,14 @@ TRUSTED = ['derive(Ord) of LocatedAddress is a strict total order (three axioms 
            'std slice::binary_search on a sorted slice (documented semantics, external_body)',
            'havoc Storage/Perspective (KT mocks) for the transaction bookkeeping harnesses']
 ASSUMPTIONS = ['"exactly the commands without committed descendant" is an induction over the ingest history: written in DESIGN.md, not machine-checked',
-               'Transaction::get_perspective (tip removal / NoSuchParent) and add_merge tip removal are NOT covered: the harnesses did not finish within 50 min of CBMC time; get_perspective success path and add_merge tip removal (BTreeMap::remove) are NOT covered: removal/insert on a non-empty BTreeMap is beyond CBMC\'s practical reach (measured)']
+               'add_merge tip removal and commit with several tips are NOT covered (evaluate_braid and the head-set construction are outside the Verus unit; BTreeMap::remove is outside CBMC reach)',
+               'in the Verus unit Storage / Perspective / Policy / Sink / locate are abstract: storage.write refuses an empty perspective and heads the segment with the perspective\'s last command; '
+               'call_rule and revert do not add or drop commands; add_single is only reached for a command that is not a tip (add_commands checks locate first)']
 EXPLANATION = 'Sorted/duplicate-free head set proved unbounded by Verus on the extracted HeadSet::push; tips bookkeeping of Transaction by Kani trace contracts over havoc storage.'
 MANIFEST = {
     'text': 'Proof of the mechanisms: HeadSet::push keeps the committed head set sorted by command id and duplicate-free for sets of any size (Verus, extracted text), '
-            'and the result is independent of push order (lemma); Transaction::flush / get_perspective tip bookkeeping by Kani trace contracts. '
+            'and the result is independent of push order (lemma); Transaction::{flush, get_perspective, add_single} keep the tip set exactly as the frontier step demands (Verus, extracted text, any size) and never leave an unwritable perspective behind. '
             'The step to "exactly the frontier of the committed graph" is an induction over histories and is not machine-checked.',
     'note': 'Mechanism contracts only (PROVED-LOCAL). Trusted: derive(Ord) axioms (cross-checked by Kani), std binary_search, havoc storage. BTreeMap removal paths uncovered.',
-    'technique': 'Verus on extracted HeadSet::push + Kani contract harnesses / trace contracts over havoc traits',
+    'technique': 'Verus on extracted HeadSet::push and Transaction tip bookkeeping + Kani contract harnesses / trace contracts over havoc traits',
 }
